@@ -2,6 +2,7 @@ import IastModel
 import IastModel.MapChecks
 import IastModel.Lemmas.NsCount
 import IastModel.Lemmas.Targets
+import IastModel.Lemmas.Temps
 /-
   Line-protocol driver.  One JSON record per stdin line (written by the Rust harness, which ran the
   real rewriter on the same request), one JSON verdict per stdout line:
@@ -103,7 +104,8 @@ def processRewrite (rec : J) : Verdict := Id.run do
     let r := transformProgram cfg (defaultFuel p) p
     v := v.addStat "in_size" (jnat p.size)
     -- the hypotheses of the instrumentation theorems (`master`), evaluated on this input
-    v := v.addStat "hyp" (jstr (if ns p != 0 then "mentions-namespace" else if !targetsOk p then "foreign-assignment-target" else "met"))
+    v := v.addStat "hyp" (jstr (if ns p != 0 then "mentions-namespace" else if !targetsOk p then "foreign-assignment-target"
+      else if nt p != 0 then "reserved-temporary-name" else "met"))
     if r.fuelOut then v := v.addCorr "fuel" (jstr "model ran out of fuel")
     -- outcome / status
     let realStatus :=
